@@ -469,7 +469,7 @@ func c09Body(e *Env) {
 			return
 		}
 		r.Ops = nil
-		if err := r.F.Close(); err != nil {
+		if err := r.E.CloseFile(r.F); err != nil {
 			e.Fail("C09", "close-error", "File.Close failed: %v", err)
 			return
 		}
@@ -572,7 +572,7 @@ func c09Body(e *Env) {
 			}
 			cc.closed = true
 			f := r.F
-			if err := f.Close(); err != nil {
+			if err := e.CloseFile(f); err != nil {
 				e.Fail("C09", "close-error", "File.Close failed: %v", err)
 			}
 			r.F = nil
